@@ -198,13 +198,20 @@ Tails == << <<"extended", "+00", <<0>>>>, <<"extended", "+ff", <<255>>>>, <<"ext
 \* every one-byte count raised to 255 at once (nested thresholds, each claiming 255 sub-policies)
 AllCounts(ms) == SelectSeq(ms, LAMBDA m : m[3] = "cnt8")
 
+\* the number of malformed encodings a shape yields (the harness must arrive at the same number)
+VarCount(m, b) == IF MarkVars(m, b) = <<>> THEN Len(FixedVars[KindName(m)]) ELSE Len(MarkVars(m, b))
+RECURSIVE SumVars(_, _, _)
+SumVars(ms, b, i) == IF i > Len(ms) THEN 0 ELSE VarCount(ms[i], b) + SumVars(ms, b, i + 1)
+NumCases(x) == Cardinality(Cuts(x.b, x.m)) + Len(Tails) + SumVars(x.m, x.b, 1) + (IF AllCounts(x.m) = <<>> THEN 0 ELSE 1)
+
 \* ---- emission ---------------------------------------------------------------------
 \* SHAPE: type, index, bytes, cuts, marks: one entry per mark <<offset, width, kind, owner, path, variants>>, variant = <<class, name, bytes | blob reference>>
-\* (variants empty: those of FixedVars[kind]);  counts: offsets of all one-byte counts
+\* (variants empty: those of FixedVars[kind]);  counts: offsets of all one-byte counts;  n: number of cases of the shape
 ShapeJson(name, k, x) ==
   ToJson([type |-> name, shape |-> k, bytes |-> x.b, cuts |-> Cuts(x.b, x.m),
           marks |-> [i \in 1..Len(x.m) |-> <<x.m[i][1], x.m[i][2], KindName(x.m[i]), x.m[i][5], x.m[i][6], MarkVars(x.m[i], x.b)>>],
-          counts |-> [i \in 1..Len(AllCounts(x.m)) |-> AllCounts(x.m)[i][1]]])
+          counts |-> [i \in 1..Len(AllCounts(x.m)) |-> AllCounts(x.m)[i][1]],
+          n |-> NumCases(x)])
 EmitShape(name, k, v, x) == /\ Assert(x.b = Enc(Schema[name], v), <<"annotated encoding differs from Wire!Enc", name, k>>)
                             /\ PrintT("@@SHAPE " \o ShapeJson(name, k, x))
 EmitShapes(name, cs) == /\ \A k \in 1..Len(cs) : EmitShape(name, k, cs[k], TopM(name, cs[k]))
